@@ -47,11 +47,12 @@ def family(pid, tier, seed):
     elif pid == "C11":
         n, exh, rnd = (20, 2, 80) if quick else (250, 3, 300)
         for i in range(n):
-            g = GG.make_grammar(rng, "g%d" % i, extra_kinds=["token", "tokens"] if i % 2 else [], with_pos=True, name_elided=False)
+            g = GG.make_grammar(rng, "g%d" % i, extra_kinds=["token", "tokens"] if i % 2 else [], with_pos=True, name_elided=(i % 3 == 2))
             seen = set()
             GG.exhaustive_inputs(g, exh, seen)
             GG.random_inputs(g, rng, rnd, 8, seen)
             gs.append(g)
+        gs += curated_c11(rng)
     elif pid == "C13":
         n, exh, rnd = (24, 3, 60) if quick else (300, 4, 250)
         for i in range(n):
@@ -60,6 +61,51 @@ def family(pid, tier, seed):
             GG.exhaustive_inputs(g, exh, seen)
             GG.random_inputs(g, rng, rnd, 9, seen)
             gs.append(g)
+    return gs
+
+
+def mk_grammar(gid, prods_spec, unions=None, with_pos=False, ks=(0, 1, 2, -1), ci=False, trailing=False):
+    """explicit grammar: prods_spec = [(name, body, fields)] (fields without tags)"""
+    prods = []
+    for name, body, fields in prods_spec:
+        fl = GG.fields_from(body, fields)
+        if with_pos:
+            fl = [{"name": "Pos", "kind": "pos", "arg": "", "tag": ""}, {"name": "EndPos", "kind": "pos", "arg": "", "tag": ""},
+                  {"name": "Tokens", "kind": "tokens", "arg": "", "tag": ""}] + fl
+        prods.append({"name": name, "fields": fl, "body": body})
+    root = {"name": "DynRoot", "fields": [{"name": "X", "kind": "union", "arg": "URoot", "tag": "@@"}],
+            "body": {"op": "cap", "f": "X", "fk": "union", "kid": {"op": "union", "u": "URoot"}}}
+    u = {"URoot": [prods_spec[0][0]]}
+    u.update(unions or {})
+    return {"id": gid, "prods": [root] + prods, "unions": u, "inputs": [], "ks": list(ks), "maxiter": 1000000, "conv": GG.conv_table(), "ci": ci, "trailing": trailing}
+
+
+def F(name, kind, arg=""):
+    return {"name": name, "kind": kind, "arg": arg}
+
+
+def curated_c11(rng):
+    """nodes adjacent to elided tokens, explicitly matched elided tokens at node ends, nodes after backtracking"""
+    lit, ref = GG.lit, GG.ref
+    cap = lambda f, fk, kid: {"op": "cap", "f": f, "fk": fk, "kid": kid}
+    seq = lambda *k: {"op": "seq", "kids": list(k)}
+    grp = lambda mode, kid: {"op": "grp", "mode": mode, "kid": kid}
+    prod = lambda p: {"op": "prod", "p": p}
+    gs = []
+    # item list whose items end in an optional explicitly named elided token
+    gs.append(mk_grammar("c0", [("P0", grp("plus", cap("Items", "nodes", prod("P1"))), [F("Items", "nodes", "P1")]),
+                               ("P1", seq(cap("Name", "string", ref("Ident")), grp("opt", cap("Doc", "strings", ref("Comment")))), [F("Name", "string"), F("Doc", "strings")])], with_pos=True))
+    # items starting with an explicitly named elided token
+    gs.append(mk_grammar("c1", [("P0", grp("plus", cap("Items", "nodes", prod("P1"))), [F("Items", "nodes", "P1")]),
+                               ("P1", seq(grp("star", cap("Doc", "strings", ref("Comment"))), cap("Name", "string", ref("Ident"))), [F("Doc", "strings"), F("Name", "string")])], with_pos=True))
+    # nodes reached after a failed longer alternative, inside repetition, nested
+    gs.append(mk_grammar("c2", [("P0", seq(grp("star", cap("A", "nodes", prod("P1"))), grp("opt", cap("B", "node", prod("P2")))), [F("A", "nodes", "P1"), F("B", "node", "P2")]),
+                               ("P1", {"op": "alt", "kids": [seq(lit("("), cap("X", "string", ref("Ident")), lit(")")), seq(lit("("), cap("Y", "string", ref("Int")), lit(")"))]}, [F("X", "string"), F("Y", "string")]),
+                               ("P2", seq(lit("("), grp("star", cap("Z", "strings", ref("Ident")))), [F("Z", "strings")])], with_pos=True, ks=(0, 1, 2, 3, -1)))
+    for g in gs:
+        seen = set()
+        GG.exhaustive_inputs(g, 3, seen, extra_terms=("#k#",))
+        GG.random_inputs(g, rng, 120, 8, seen)
     return gs
 
 
@@ -85,6 +131,7 @@ def leak_family(rng, quick):
     rng.shuffle(combos)
     if quick:
         combos = combos[:60]
+    combos += [("zw_prod", "none", k) for k in ("string", "token")] + [("zw_cap", "none", k) for k in ("tokens", "string", "bool")]
     for idx, (cp, nested, kind) in enumerate(combos):
         fields0 = [{"name": "A", "kind": kind, "arg": ""}, {"name": "B", "kind": "strings", "arg": ""}, {"name": "C", "kind": "string", "arg": ""}]
         capA = cap("A", kind, ref("Int") if kind == "int8" else ref("Ident"))
@@ -107,7 +154,17 @@ def leak_family(rng, quick):
         inner += [capB, lit("!")]
         attempt = seq(*inner)
         cont = cap("C", "string", grp("once", grp("plus", {"op": "alt", "kids": [ref("Ident"), ref("Int"), lit("("), lit(")"), lit("?")]})))
-        if cp == "alt":
+        if cp == "zw_prod":
+            # an alternative abandoned without consuming a token while captures are pending: @@ whose production fails at its start
+            fields0 = [{"name": "N", "kind": "node", "arg": "P1"}, {"name": "C", "kind": "string", "arg": ""}]
+            body = {"op": "alt", "kids": [seq(cap("N", "node", {"op": "prod", "p": "P1"}), lit("!")), cont]}
+            prods_extra = [("P1", seq(cap("X", kind, grp("once", grp("opt", lit("-")))), cap("Y", "string", ref("Int"))),
+                            [{"name": "X", "kind": kind, "arg": ""}, {"name": "Y", "kind": "string", "arg": ""}])]
+        elif cp == "zw_cap":
+            fields0 = [{"name": "T", "kind": kind, "arg": ""}, {"name": "C", "kind": "string", "arg": ""}]
+            body = {"op": "alt", "kids": [seq(cap("T", kind, grp("once", grp("opt", lit("-")))), lit("!")), cont]}
+            prods_extra = []
+        elif cp == "alt":
             body = {"op": "alt", "kids": [attempt, cont]}
         elif cp == "altalt":
             body = seq(grp("once", {"op": "alt", "kids": [seq(grp("once", {"op": "alt", "kids": [attempt, seq(lit("x"), lit("y"))]}), lit("!")), cont]}))
@@ -144,6 +201,8 @@ def leak_family(rng, quick):
                     ts = ([a] + nb + tail[:1]) * (rep - 1) + [a] + nb + tail
                     GG.add_input(g, " ".join(ts), seen)
                     GG.add_input(g, " ".join(["z"] + ts), seen)
+        for ts in (["x", "w"], ["7"], ["x", "?"], ["-", "7", "!"], ["-", "!"], ["!"], ["-", "x"], ["-", "7", "?"]):
+            GG.add_input(g, " ".join(ts), seen)
         GG.random_inputs(g, rng, 20 if quick else 80, 7, seen, seps=(" ", " ", "  "))
         gs.append(g)
     return gs
